@@ -1,5 +1,5 @@
 (* Extraction of the byte-core model for the correspondence check (ExtrOcamlBasic only). *)
-From Verif Require Import Bytes Base64 LineBreaker QP HeaderFold WordEnc Writer.
+From Verif Require Import Bytes Base64 LineBreaker QP HeaderFold WordEnc Writer Smime Crypto.
 Require Extraction.
 Require Import ExtrOcamlBasic.
 Extraction "model.ml"
@@ -7,4 +7,5 @@ Extraction "model.ml"
   QP.qp_run QP.qp_body QP.qp_decode
   HeaderFold.write_header HeaderFold.unfold_hdr
   Bytes.lines_ok
-  WordEnc.word_encode Writer.write_to Writer.unlimited Writer.fail_at Writer.enc_of_name Writer.sanitize Writer.file_headers Writer.has_mixed Writer.has_related Writer.has_alt.
+  WordEnc.word_encode Writer.write_to Writer.unlimited Writer.fail_at Writer.enc_of_name Writer.sanitize Writer.file_headers Writer.has_mixed Writer.has_related Writer.has_alt
+  Smime.write_to_signed Smime.sign_input Crypto.sha256.
